@@ -1,1 +1,429 @@
-From G02 Require Import Check.
+(* C02 — the codec law: what the response writers emit is consumed by the
+   reference client (Client.v) message by message.  Part 1: lines, numerals,
+   header fields, chunked coding. *)
+From G02 Require Import RespFraming Client.
+Open Scope N_scope.
+
+(* ------------------------------------------------------------------ lines *)
+Definition nocrlf_c (c : N) : bool := negb (c =? 13) && negb (c =? 10).
+Definition nocrlf (s : str) : bool := forallb nocrlf_c s.
+
+Lemma take_line_app l rest : nocrlf l = true -> take_line (l ++ crlf ++ rest) = Some (l, rest).
+Proof.
+  induction l as [|c l IH]; intro H.
+  - reflexivity.
+  - simpl in H. apply andb_true_iff in H as [Hc Hl]. unfold nocrlf_c in Hc.
+    apply andb_true_iff in Hc as [H13 H10]. apply negb_true_iff in H13, H10.
+    change ((c :: l) ++ crlf ++ rest) with (c :: (l ++ crlf ++ rest)).
+    cbn [take_line]. rewrite H13, H10, (IH Hl). reflexivity.
+Qed.
+
+Lemma nocrlf_app x y : nocrlf (x ++ y) = nocrlf x && nocrlf y.
+Proof. apply forallb_app. Qed.
+
+Lemma token_char_nocrlf c : is_token_char c = true -> nocrlf_c c = true.
+Proof.
+  intro H. unfold nocrlf_c.
+  destruct (c =? 13) eqn:E1; [apply N.eqb_eq in E1; subst; discriminate|].
+  destruct (c =? 10) eqn:E2; [apply N.eqb_eq in E2; subst; discriminate|]. reflexivity.
+Qed.
+
+Lemma token_nocrlf k : forallb is_token_char k = true -> nocrlf k = true.
+Proof.
+  unfold nocrlf. rewrite !forallb_forall. intros H c Hin. apply token_char_nocrlf, H, Hin.
+Qed.
+
+Lemma token_char_not_colon c : is_token_char c = true -> (58 =? c) = false.
+Proof.
+  intro H. destruct (58 =? c) eqn:E; [apply N.eqb_eq in E; subst; discriminate | reflexivity].
+Qed.
+
+Lemma cut_colon k v : forallb is_token_char k = true -> cut_byte 58 (k ++ 58 :: v) = Some (k, v).
+Proof.
+  induction k as [|c k IH]; intro H.
+  - cbn [app cut_byte]. rewrite N.eqb_refl. reflexivity.
+  - cbn [forallb] in H. apply andb_true_iff in H as [Hc Hk].
+    cbn [app cut_byte]. rewrite (token_char_not_colon c Hc), (IH Hk). reflexivity.
+Qed.
+
+(* ------------------------------------------------------------------ numerals *)
+Section Numerals.
+  Variable base : N.
+  Variable dig : N -> N.
+  Variable dv : N -> option N.
+  Hypothesis Hbase : 2 <= base.
+  Hypothesis Hdv : forall d, d < base -> dv (dig d) = Some d.
+
+  Lemma val_digits fuel n :
+    n < 2 ^ N.of_nat fuel -> val_rev base dv (digits_rev base dig (S fuel) n) = Some n.
+  Proof.
+    revert n. induction fuel as [|f IH]; intros n Hn.
+    - simpl in Hn. assert (n = 0) by lia. subst n.
+      cbn [digits_rev]. rewrite N.div_0_l by lia. rewrite N.eqb_refl. cbn [val_rev].
+      rewrite N.mod_0_l by lia. rewrite (Hdv 0) by lia. f_equal. lia.
+    - cbn [digits_rev]. destruct (n / base =? 0) eqn:E.
+      + apply N.eqb_eq in E. cbn [val_rev]. rewrite (Hdv (n mod base)) by (apply N.mod_lt; lia).
+        f_equal. rewrite (N.div_mod n base) at 2 by lia. rewrite E. lia.
+      + assert (Hq : n / base < 2 ^ N.of_nat f).
+        { apply N.div_lt_upper_bound; [lia|].
+          rewrite Nat2N.inj_succ, N.pow_succ_r' in Hn. nia. }
+        change (val_rev base dv (dig (n mod base) :: digits_rev base dig (S f) (n / base)) = Some n).
+        cbn [val_rev]. rewrite (IH _ Hq), (Hdv (n mod base)) by (apply N.mod_lt; lia).
+        f_equal. rewrite (N.div_mod n base) at 3 by lia. lia.
+  Qed.
+
+  Lemma digits_nonempty fuel n : digits_rev base dig (S fuel) n <> [].
+  Proof. cbn [digits_rev]. discriminate. Qed.
+
+  Lemma digits_all (P : N -> Prop) fuel n :
+    (forall d, d < base -> P (dig d)) -> Forall P (digits_rev base dig fuel n).
+  Proof.
+    intro H. revert n. induction fuel as [|f IH]; intro n; cbn [digits_rev]; [constructor|].
+    constructor; [apply H, N.mod_lt; lia|]. destruct (n / base =? 0); [constructor | apply IH].
+  Qed.
+End Numerals.
+
+Lemma size_bound n : n < 2 ^ N.of_nat (N.to_nat (N.size n)).
+Proof. rewrite N2Nat.id. apply N.size_gt. Qed.
+
+Lemma hexc_digit d : d < 16 -> hex_digit (hexc d) = Some d.
+Proof.
+  intro H. unfold hexc, hex_digit, is_digit.
+  destruct (d <? 10) eqn:E.
+  - apply N.ltb_lt in E.
+    replace ((48 <=? 48 + d) && (48 + d <=? 57)) with true
+      by (symmetry; apply andb_true_iff; split; apply N.leb_le; lia).
+    f_equal. lia.
+  - apply N.ltb_ge in E.
+    replace ((48 <=? 87 + d) && (87 + d <=? 57)) with false
+      by (symmetry; apply andb_false_iff; right; apply N.leb_gt; lia).
+    replace ((97 <=? 87 + d) && (87 + d <=? 102)) with true
+      by (symmetry; apply andb_true_iff; split; apply N.leb_le; lia).
+    f_equal. lia.
+Qed.
+
+Lemma decc_digit d : d < 10 -> dec_digit (48 + d) = Some d.
+Proof.
+  intro H. unfold dec_digit, is_digit.
+  replace ((48 <=? 48 + d) && (48 + d <=? 57)) with true
+    by (symmetry; apply andb_true_iff; split; apply N.leb_le; lia).
+  f_equal. lia.
+Qed.
+
+Lemma parse_num_rev base dv (l : str) v :
+  l <> [] -> val_rev base dv l = Some v -> parse_num base dv (rev l) = Some v.
+Proof.
+  intros Hne Hv. unfold parse_num. destruct (rev l) eqn:E.
+  - exfalso. destruct l as [|x l]; [congruence|]. cbn [rev] in E.
+    apply app_eq_nil in E as [_ E]. discriminate.
+  - rewrite <- E, rev_involutive. exact Hv.
+Qed.
+
+Lemma parse_hex n : parse_num 16 hex_digit (hex n) = Some n.
+Proof.
+  unfold hex. apply parse_num_rev; [apply digits_nonempty|].
+  apply val_digits; [lia | apply hexc_digit | apply size_bound].
+Qed.
+
+Lemma parse_dec n : parse_num 10 dec_digit (dec n) = Some n.
+Proof.
+  unfold dec. apply parse_num_rev; [apply digits_nonempty|].
+  apply val_digits; [lia | apply decc_digit | apply size_bound].
+Qed.
+
+(* bytes of a numeral are digits: no CR, LF, ';', space or tab among them *)
+Definition plain_c (c : N) : bool :=
+  negb (c =? 13) && negb (c =? 10) && negb (c =? 59) && negb (c =? 32) && negb (c =? 9).
+
+Lemma hexc_plain d : d < 16 -> plain_c (hexc d) = true.
+Proof.
+  intro H. unfold hexc, plain_c. destruct (d <? 10) eqn:E.
+  - apply N.ltb_lt in E. repeat (apply andb_true_iff; split); apply negb_true_iff, N.eqb_neq; lia.
+  - apply N.ltb_ge in E. repeat (apply andb_true_iff; split); apply negb_true_iff, N.eqb_neq; lia.
+Qed.
+
+Lemma decc_plain d : d < 10 -> plain_c (48 + d) = true.
+Proof.
+  intro H. unfold plain_c. repeat (apply andb_true_iff; split); apply negb_true_iff, N.eqb_neq; lia.
+Qed.
+
+Lemma hex_plain n : forallb plain_c (hex n) = true.
+Proof.
+  apply forallb_forall. intros c Hin. unfold hex in Hin. apply in_rev in Hin.
+  pose proof (digits_all 16 hexc ltac:(lia) (fun c => plain_c c = true) (S (N.to_nat (N.size n))) n hexc_plain) as HF.
+  rewrite Forall_forall in HF. apply HF, Hin.
+Qed.
+
+Lemma dec_plain n : forallb plain_c (dec n) = true.
+Proof.
+  apply forallb_forall. intros c Hin. unfold dec in Hin. apply in_rev in Hin.
+  pose proof (digits_all 10 (fun d => 48 + d) ltac:(lia) (fun c => plain_c c = true) (S (N.to_nat (N.size n))) n decc_plain) as HF.
+  rewrite Forall_forall in HF. apply HF, Hin.
+Qed.
+
+Lemma plain_nocrlf s : forallb plain_c s = true -> nocrlf s = true.
+Proof.
+  unfold nocrlf. rewrite !forallb_forall. intros H c Hin. specialize (H c Hin).
+  unfold plain_c in H. unfold nocrlf_c.
+  repeat (apply andb_true_iff in H as [H ?]). apply andb_true_iff. split; assumption.
+Qed.
+
+Lemma plain_nocrlf_c c : plain_c c = true -> nocrlf_c c = true.
+Proof.
+  unfold plain_c, nocrlf_c. intro H. repeat (apply andb_true_iff in H as [H ?]).
+  apply andb_true_iff. split; assumption.
+Qed.
+
+Lemma plain_not_semi c : plain_c c = true -> (59 =? c) = false.
+Proof.
+  intro H. destruct (59 =? c) eqn:E; [apply N.eqb_eq in E; subst; discriminate | reflexivity].
+Qed.
+
+Lemma plain_no_semi s : forallb plain_c s = true -> before_semi s = s.
+Proof.
+  unfold before_semi. intro H.
+  assert (E : cut_byte 59 s = None).
+  { induction s as [|c s IH]; [reflexivity|]. cbn [forallb] in H. apply andb_true_iff in H as [Hc Hs].
+    cbn [cut_byte]. rewrite (plain_not_semi c Hc), (IH Hs). reflexivity. }
+  rewrite E. reflexivity.
+Qed.
+
+(* single digits and %03d, for the status line *)
+Lemma dec_small n : n < 10 -> dec n = [48 + n].
+Proof.
+  intro H. unfold dec. cbn [digits_rev].
+  rewrite (N.mod_small n 10 H), (N.div_small n 10 H). reflexivity.
+Qed.
+
+Definition below (k : nat) : list N := map N.of_nat (seq 0 k).
+Lemma in_below k n : n < N.of_nat k -> In n (below k).
+Proof.
+  intro H. unfold below. apply in_map_iff. exists (N.to_nat n). split; [apply N2Nat.id|].
+  apply in_seq. lia.
+Qed.
+
+Lemma pad3_digits code : code < 1000 ->
+  pad3 code = [48 + code / 100; 48 + (code / 10) mod 10; 48 + code mod 10].
+Proof.
+  intro H.
+  assert (A : forallb (fun c => str_eqb (pad3 c) [48 + c / 100; 48 + (c / 10) mod 10; 48 + c mod 10]) (below 1000) = true)
+    by (vm_compute; reflexivity).
+  rewrite forallb_forall in A. apply str_eqb_eq, A, in_below. exact H.
+Qed.
+
+(* ------------------------------------------------------------------ header fields *)
+(* what the client sees of a written field: the value with optional white space trimmed *)
+Definition trimf (f : str * str) : str * str := (fst f, trim_ows (snd f)).
+Definition clean (f : str * str) : bool := is_token (fst f) && nocrlf (snd f).
+
+Lemma is_token_chars k : is_token k = true -> forallb is_token_char k = true /\ k <> [].
+Proof. destruct k; [discriminate|]. intro H. split; [exact H | discriminate]. Qed.
+
+Lemma trim_ows_sp v : trim_ows (32 :: v) = trim_ows v.
+Proof. reflexivity. Qed.
+
+Lemma parse_field_line f : clean f = true -> parse_field (fst f ++ [58; 32] ++ snd f) = Some (trimf f).
+Proof.
+  destruct f as [k v]. unfold clean. cbn [fst snd]. intro H. apply andb_true_iff in H as [Hk _].
+  destruct (is_token_chars k Hk) as [Hc _]. unfold parse_field.
+  change (k ++ [58; 32] ++ v) with (k ++ 58 :: (32 :: v)).
+  rewrite (cut_colon k (32 :: v) Hc), Hk, trim_ows_sp. reflexivity.
+Qed.
+
+Lemma field_line_nocrlf f : clean f = true -> nocrlf (fst f ++ [58; 32] ++ snd f) = true.
+Proof.
+  destruct f as [k v]. unfold clean. cbn [fst snd]. intro H. apply andb_true_iff in H as [Hk Hv].
+  destruct (is_token_chars k Hk) as [Hc _].
+  rewrite !nocrlf_app, (token_nocrlf k Hc), Hv. reflexivity.
+Qed.
+
+Lemma field_bytes_eq f : field_bytes f = (fst f ++ [58; 32] ++ snd f) ++ crlf.
+Proof. unfold field_bytes. rewrite <- !app_assoc. reflexivity. Qed.
+
+Lemma parse_fields_ser fs : forall fuel rest,
+  forallb clean fs = true -> (length fs < fuel)%nat ->
+  parse_fields fuel (concat (map field_bytes fs) ++ crlf ++ rest) = Some (map trimf fs, rest).
+Proof.
+  induction fs as [|f fs IH]; intros fuel rest Hc Hf.
+  - destruct fuel as [|fuel]; [simpl in Hf; lia|]. reflexivity.
+  - destruct fuel as [|fuel]; [simpl in Hf; lia|].
+    cbn [forallb] in Hc. apply andb_true_iff in Hc as [Hcf Hcs].
+    cbn [map concat]. rewrite field_bytes_eq.
+    assert (Hne : fst f ++ [58; 32] ++ snd f <> []).
+    { unfold clean in Hcf. apply andb_true_iff in Hcf as [Hk _].
+      destruct (fst f); [discriminate | discriminate]. }
+    pose proof (field_line_nocrlf f Hcf) as Hnl. pose proof (parse_field_line f Hcf) as Hpf.
+    set (L := fst f ++ [58; 32] ++ snd f) in *.
+    replace (((L ++ crlf) ++ concat (map field_bytes fs)) ++ crlf ++ rest)
+      with (L ++ crlf ++ (concat (map field_bytes fs) ++ crlf ++ rest))
+      by (rewrite <- !app_assoc; reflexivity).
+    cbn [parse_fields]. rewrite (take_line_app L _ Hnl).
+    destruct L eqn:E; [congruence|]. rewrite Hpf, (IH fuel rest Hcs) by (simpl in Hf; lia). reflexivity.
+Qed.
+
+Lemma fields_len fs : (length fs <= length (concat (map field_bytes fs)))%nat.
+Proof.
+  induction fs as [|f fs IH]; [simpl; lia|]. cbn [map concat length]. rewrite app_length.
+  unfold field_bytes at 1. rewrite !app_length. simpl. lia.
+Qed.
+
+Lemma forallb_map_clean_trim fs : map fst (map trimf fs) = map fst fs.
+Proof. rewrite map_map. reflexivity. Qed.
+
+(* ------------------------------------------------------------------ status line *)
+Lemma is_digit_48 d : d < 10 -> is_digit (48 + d) = true.
+Proof. intro H. unfold is_digit. apply andb_true_iff. split; apply N.leb_le; lia. Qed.
+
+Lemma parse_status_ser M m code text :
+  M < 10 -> m < 10 -> code < 1000 ->
+  parse_status_line (b "HTTP/" ++ dec M ++ [46] ++ dec m ++ [32] ++ pad3 code ++ [32] ++ text) =
+  Some (M, m, code, text).
+Proof.
+  intros HM Hm Hc. rewrite (dec_small M HM), (dec_small m Hm), (pad3_digits code Hc).
+  set (a := code / 100). set (c := (code / 10) mod 10). set (d := code mod 10).
+  assert (Ha : a < 10) by (apply N.div_lt_upper_bound; lia).
+  assert (Hcc : c < 10) by (apply N.mod_lt; lia).
+  assert (Hd : d < 10) by (apply N.mod_lt; lia).
+  assert (Hcode : a * 100 + c * 10 + d = code).
+  { pose proof (N.div_mod code 10 ltac:(lia)) as E1.
+    pose proof (N.div_mod (code / 10) 10 ltac:(lia)) as E2.
+    assert (E3 : code / 10 / 10 = code / 100) by (rewrite N.div_div by lia; reflexivity).
+    subst a c d. lia. }
+  unfold parse_status_line.
+  change (b "HTTP/" ++ [48 + M] ++ [46] ++ [48 + m] ++ [32] ++ [48 + a; 48 + c; 48 + d] ++ [32] ++ text)
+    with (b "HTTP/" ++ ((48 + M) :: 46 :: (48 + m) :: 32 :: (48 + a) :: (48 + c) :: (48 + d) :: 32 :: text)).
+  rewrite has_prefix_app.
+  change (skipn 5 (b "HTTP/" ++ ((48 + M) :: 46 :: (48 + m) :: 32 :: (48 + a) :: (48 + c) :: (48 + d) :: 32 :: text)))
+    with ((48 + M) :: 46 :: (48 + m) :: 32 :: (48 + a) :: (48 + c) :: (48 + d) :: 32 :: text).
+  cbv iota beta.
+  rewrite !is_digit_48 by assumption. rewrite !N.eqb_refl. cbn [andb].
+  replace (48 + M - 48) with M by lia. replace (48 + m - 48) with m by lia.
+  replace ((48 + a - 48) * 100 + (48 + c - 48) * 10 + (48 + d - 48)) with code by lia.
+  reflexivity.
+Qed.
+
+(* ------------------------------------------------------------------ head of a message *)
+Definition nocrlf_status (r : resp) : bool :=
+  (r_major r <? 10) && (r_minor r <? 10) && (r_code r <? 1000) && nocrlf (reason_text r).
+
+Lemma status_line_eq r :
+  status_line r = (b "HTTP/" ++ dec (r_major r) ++ [46] ++ dec (r_minor r) ++ [32] ++ pad3 (r_code r) ++ [32] ++ reason_text r) ++ crlf.
+Proof. unfold status_line. rewrite <- !app_assoc. reflexivity. Qed.
+
+Lemma status_content_nocrlf r : nocrlf_status r = true ->
+  nocrlf (b "HTTP/" ++ dec (r_major r) ++ [46] ++ dec (r_minor r) ++ [32] ++ pad3 (r_code r) ++ [32] ++ reason_text r) = true.
+Proof.
+  unfold nocrlf_status. intro H. repeat (apply andb_true_iff in H as [H ?]).
+  apply N.ltb_lt in H, H2, H1.
+  assert (D : forall d, d < 10 -> nocrlf [48 + d] = true).
+  { intros d Hd. cbn [nocrlf forallb]. rewrite andb_true_r. apply plain_nocrlf_c, decc_plain, Hd. }
+  rewrite (dec_small _ H), (dec_small _ H2), (pad3_digits _ H1). rewrite !nocrlf_app.
+  rewrite (D _ H), (D _ H2), H0.
+  change [48 + r_code r / 100; 48 + (r_code r / 10) mod 10; 48 + r_code r mod 10]
+    with ([48 + r_code r / 100] ++ [48 + (r_code r / 10) mod 10] ++ [48 + r_code r mod 10]).
+  rewrite !nocrlf_app.
+  rewrite (D (r_code r / 100)) by (apply N.div_lt_upper_bound; lia).
+  rewrite (D ((r_code r / 10) mod 10)) by (apply N.mod_lt; lia).
+  rewrite (D (r_code r mod 10)) by (apply N.mod_lt; lia).
+  reflexivity.
+Qed.
+
+Theorem client_head v11 meth r fs tail :
+  nocrlf_status r = true -> forallb clean fs = true ->
+  client_parse v11 meth (status_line r ++ concat (map field_bytes fs) ++ crlf ++ tail) =
+  client_body v11 meth (r_code r) (map trimf fs)
+              (mkObs (r_major r) (r_minor r) (r_code r) (reason_text r) (map trimf fs)) tail.
+Proof.
+  intros Hs Hc. unfold client_parse. rewrite status_line_eq, <- app_assoc.
+  rewrite (take_line_app _ _ (status_content_nocrlf r Hs)).
+  unfold nocrlf_status in Hs. repeat (apply andb_true_iff in Hs as [Hs ?]).
+  apply N.ltb_lt in Hs, H1, H0.
+  rewrite (parse_status_ser _ _ _ _ Hs H1 H0).
+  rewrite (parse_fields_ser fs _ tail Hc); [reflexivity|].
+  rewrite !app_length. pose proof (fields_len fs). lia.
+Qed.
+
+(* ------------------------------------------------------------------ chunked coding *)
+Definition chunk_bytes (d : str) : str := hex (N.of_nat (length d)) ++ crlf ++ d ++ crlf.
+
+Lemma chunk_writes_bytes d : concat (chunk_writes d) = chunk_bytes d.
+Proof. unfold chunk_writes, chunk_bytes. cbn [concat]. rewrite app_nil_r, <- !app_assoc. reflexivity. Qed.
+
+Lemma chunks_concat reads : concat (flat_map chunk_writes reads) = concat (map chunk_bytes reads).
+Proof.
+  induction reads as [|d reads IH]; [reflexivity|]. cbn [flat_map map concat].
+  rewrite concat_app, chunk_writes_bytes, IH. reflexivity.
+Qed.
+
+Lemma chunks_len reads : (length reads <= length (concat (map chunk_bytes reads)))%nat.
+Proof.
+  induction reads as [|d reads IH]; [simpl; lia|]. cbn [map concat length]. rewrite app_length.
+  unfold chunk_bytes at 1. rewrite !app_length. simpl. lia.
+Qed.
+
+Lemma dechunk_ser reads : forall fuel acc tfs rest,
+  forallb nonempty reads = true -> (length reads < fuel)%nat -> forallb clean tfs = true ->
+  dechunk fuel (concat (map chunk_bytes reads) ++ (b "0" ++ crlf) ++ concat (map field_bytes tfs) ++ crlf ++ rest) acc =
+  Some (acc ++ concat reads, map trimf tfs, rest).
+Proof.
+  induction reads as [|d reads IH]; intros fuel acc tfs rest Hne Hf Hc.
+  - destruct fuel as [|fuel]; [simpl in Hf; lia|]. cbn [map concat app].
+    cbn [dechunk]. rewrite <- app_assoc.
+    rewrite (take_line_app (b "0") _ eq_refl).
+    change (parse_num 16 hex_digit (before_semi (b "0"))) with (Some 0). cbv iota beta.
+    rewrite N.eqb_refl, app_nil_r.
+    rewrite (parse_fields_ser tfs _ rest Hc); [reflexivity|].
+    rewrite !app_length. pose proof (fields_len tfs). lia.
+  - destruct fuel as [|fuel]; [simpl in Hf; lia|].
+    cbn [forallb] in Hne. apply andb_true_iff in Hne as [Hd Hne].
+    cbn [map concat]. unfold chunk_bytes at 1.
+    set (TAIL := concat (map chunk_bytes reads) ++ (b "0" ++ crlf) ++ concat (map field_bytes tfs) ++ crlf ++ rest).
+    replace (((hex (N.of_nat (length d)) ++ crlf ++ d ++ crlf) ++ concat (map chunk_bytes reads)) ++
+             (b "0" ++ crlf) ++ concat (map field_bytes tfs) ++ crlf ++ rest)
+      with (hex (N.of_nat (length d)) ++ crlf ++ (d ++ crlf ++ TAIL))
+      by (unfold TAIL; rewrite <- !app_assoc; reflexivity).
+    cbn [dechunk].
+    rewrite (take_line_app _ _ (plain_nocrlf _ (hex_plain _))).
+    rewrite (plain_no_semi _ (hex_plain _)), parse_hex.
+    assert (Hlen : N.of_nat (length d) =? 0 = false).
+    { apply N.eqb_neq. destruct d; [discriminate | simpl; lia]. }
+    rewrite Hlen, Nat2N.id.
+    assert (Hlt : (length (d ++ crlf ++ TAIL) <? length d + 2)%nat = false).
+    { apply Nat.ltb_ge. rewrite !app_length. simpl. lia. }
+    rewrite Hlt.
+    assert (Hs1 : skipn (length d) (d ++ crlf ++ TAIL) = crlf ++ TAIL).
+    { rewrite skipn_app, skipn_all, Nat.sub_diag. reflexivity. }
+    rewrite Hs1. rewrite has_prefix_app.
+    assert (Hs2 : skipn (length d + 2) (d ++ crlf ++ TAIL) = TAIL).
+    { rewrite skipn_app, skipn_all2 by lia. replace (length d + 2 - length d)%nat with 2%nat by lia. reflexivity. }
+    rewrite Hs2.
+    assert (Hf1 : firstn (length d) (d ++ crlf ++ TAIL) = d).
+    { rewrite firstn_app, firstn_all, Nat.sub_diag. cbn [firstn]. apply app_nil_r. }
+    rewrite Hf1. unfold TAIL.
+    rewrite (IH fuel (acc ++ d) tfs rest Hne ltac:(simpl in Hf; lia) Hc).
+    cbn [concat]. rewrite <- app_assoc. reflexivity.
+Qed.
+
+(* ------------------------------------------------------------------ Content-Length framed bodies *)
+Lemma limit_reads_firstn reads : forall n, concat (limit_reads n reads) = firstn n (concat reads).
+Proof.
+  induction reads as [|d reads IH]; intro n.
+  - destruct n; reflexivity.
+  - destruct n as [|n']; [reflexivity|]. cbn [limit_reads concat].
+    destruct (length d <=? S n')%nat eqn:E.
+    + apply Nat.leb_le in E. cbn [concat]. rewrite IH, firstn_app. rewrite (firstn_all2 d E). reflexivity.
+    + apply Nat.leb_gt in E. cbn [concat]. rewrite app_nil_r, firstn_app.
+      replace (S n' - length d)%nat with 0%nat by lia. cbn [firstn]. rewrite app_nil_r. reflexivity.
+Qed.
+
+Lemma concat_filter_nonempty (l : list str) : concat (filter nonempty l) = concat l.
+Proof.
+  induction l as [|x l IH]; [reflexivity|]. cbn [filter]. destruct x; cbn [nonempty concat app]; [exact IH|].
+  rewrite IH. reflexivity.
+Qed.
+
+Lemma filter_nonempty_all (l : list str) : forallb nonempty (filter nonempty l) = true.
+Proof.
+  induction l as [|x l IH]; [reflexivity|]. cbn [filter]. destruct (nonempty x) eqn:E; [|exact IH].
+  cbn [forallb]. rewrite E, IH. reflexivity.
+Qed.
